@@ -265,6 +265,14 @@ def file_cases(rng, n):
     FAILING = [{"b": "$required"}, {"a": "$\"{a}\""}, {"x": {"$encode": "nosuch", "$value": 1}}, {"x": {"$merge": "nosuch"}}, {"e": "$env:BKL_UNSET_VAR"},
                {"a": "$\"{b}\"", "b": "$\"{a}\""}, {"x": {"$decode": "json", "$value": "{"}}, {"l": [{"$repeat": "x"}]}, {"$output": 5, "k": 1},
                {"x": {"$merge": "x"}}]
+    # the tools on inputs that evaluate to NO document or to SEVERAL: every tool x every odd document x every argument position
+    ODD = [{"$repeat": 0, "a": 1}, {"$repeat": 2, "a": "$repeat"}, {"$output": False, "a": 1},
+           {"x": {"$output": True, "v": 1}, "y": {"$output": True, "v": 2}}, {"$repeat": {"i": 0}, "a": 1}]
+    for tool in ("bkld", "bkli", "bklr"):
+        for odd in ODD:
+            files = {"f.yaml": formats.dump_yaml([odd]), "g.yaml": formats.dump_yaml([{"a": 1, "l": [1, 2]}])}
+            for args in ([["f.yaml", "g.yaml"], ["g.yaml", "f.yaml"], ["f.yaml", "f.yaml"]] if tool != "bklr" else [["f.yaml"]]):
+                out.append({"kind": "tool-document-count", "files": files, "tool": tool, "args": args})
     for _ in range(n):
         r = rng.random()
         if rng.random() < 0.06:
@@ -276,6 +284,19 @@ def file_cases(rng, n):
             if rng.random() < 0.3:
                 args = ["-f", rng.choice(["json", "yaml", "toml"])] + args
             out.append({"kind": "output-destination", "files": files, "tool": tool, "args": args})
+            continue
+        if rng.random() < 0.05:
+            # the tools on inputs that evaluate to NO document or to SEVERAL ($repeat: 0 / 2, several $output selections, a
+            # hidden root): they work on exactly one document per file - a diagnostic, never an index out of range
+            tool = rng.choice(["bkld", "bkli", "bklr", "bkld"])
+            odd = rng.choice([{"$repeat": 0, "a": 1}, {"$repeat": 2, "a": "$repeat"}, {"$output": False, "a": 1},
+                              {"x": {"$output": True, "v": 1}, "y": {"$output": True, "v": 2}}, {"$repeat": {"i": 0}, "a": 1}])
+            plain = {"a": 1, "l": [1, 2]}
+            files = {"f.yaml": formats.dump_yaml([odd]), "g.yaml": formats.dump_yaml([plain]), "h.yaml": formats.dump_yaml([odd, plain])}
+            first = rng.choice(["f.yaml", "g.yaml", "h.yaml"])
+            second = rng.choice(["f.yaml", "g.yaml", "h.yaml"])
+            args = [first, second] if tool in ("bkld", "bkli") else [first]
+            out.append({"kind": "tool-document-count", "files": files, "tool": tool, "args": args})
             continue
         if r < 0.12:
             # a stream whose EARLIER documents evaluate fine and a LATER one fails in the output phase: all or nothing
